@@ -7,7 +7,8 @@ exit 1: at least one new violation (VIOLATION property=… replay=… lines)
 exit 2: ANALYSIS-BROKEN: an anchor vanished or a construct is in a shape the extractor cannot
         classify — neither a pass nor a violation
 """
-import sys, os, json, argparse, traceback
+import sys, os, json, argparse, traceback, signal
+signal.signal(signal.SIGPIPE, signal.SIG_DFL)
 sys.path.insert(0, os.path.dirname(os.path.abspath(__file__)))
 from lib import facts as F
 import core
